@@ -138,6 +138,8 @@ def _script_features(detail):
         feats.append('type-renamed')
     if 'SET OWNED' in script:
         feats.append('set-owned')
+    if 'DROP OWNED' in script:
+        feats.append('drop-owned')
     if 'DROP EXTENDING' in script or re.search(r'EXTENDING [\w:, ]+ (LAST|FIRST|BEFORE|AFTER)', script):
         feats.append('rebased')
     return '|' + '+'.join(feats)
